@@ -12,6 +12,7 @@ import vlib, build, bpbind, gen, sqfsimg, fidelity
 from vlib import VERIF, Evidence, Reporter, run_tlc, write_cfg, scratch, SEED, sh
 
 PID = "C01"
+INVS = ["NeverHangs", "TreeClosed", "HardLinksShare", "GlobLinksFaithful"]
 PNAME = lambda p: "/" + "/".join(p)
 
 
@@ -29,6 +30,9 @@ def render_program(prog, srcfile):
             lines.append("pipe %s 0600 %d 7" % (path, d["uid"]))
         elif d["kind"] == "link":
             lines.append("link %s 0 0 0 %s" % (path, PNAME(d["tgt"])))
+        elif d["kind"] == "glob":
+            opt = {"none": "", "nohl": "-nohardlinks ", "nonrec": "-nonrecursive "}[d["opt"]]
+            lines.append("glob %s 0750 %d 7 %sg%s" % (path, d["uid"], opt, d["src"]))
     return "\n".join(lines) + "\n"
 
 
@@ -39,8 +43,24 @@ def check_program(tools, work, i, rec):
     open(src, "wb").write(b"file data\n")
     pf = d + "/pack.txt"
     open(pf, "w").write(render_program(rec["prog"], src))
+    if any(x["kind"] == "glob" for x in rec["prog"]):
+        # the two source trees of FsTree.SrcEntries: S1 = {a, b = a}; S2 = {a/, a/a, a/b = a/a, b}
+        os.makedirs(d + "/gS1")
+        os.makedirs(d + "/gS2/a")
+        for f, l in ((d + "/gS1/a", d + "/gS1/b"), (d + "/gS2/a/a", d + "/gS2/a/b"), (d + "/gS2/b", None)):
+            open(f, "wb").write(b"glob " + f[len(d):].encode())
+            if l:
+                os.link(f, l)
     out = d + "/o.sqfs"
-    rc, o, e = sh([tools + "/gensquashfs", "-q", "-f", "-c", "gzip", "-F", pf, out], timeout=20)
+    # the pack file is named in the three ways the tool resolves relative locations: absolute path, a bare name in the
+    # current directory (no pack dir can be derived), and next to an explicit -D
+    mode = i % 3
+    if mode == 0:
+        rc, o, e = sh([tools + "/gensquashfs", "-q", "-f", "-c", "gzip", "-F", pf, out], timeout=20)
+    elif mode == 1:
+        rc, o, e = sh([tools + "/gensquashfs", "-q", "-f", "-c", "gzip", "-F", "pack.txt", out], timeout=20, cwd=d)
+    else:
+        rc, o, e = sh([tools + "/gensquashfs", "-q", "-f", "-c", "gzip", "-D", d, "-F", pf, out], timeout=20)
     m = rec["m"]
     bad = None
     if rc == 124:
@@ -200,8 +220,9 @@ def run(tier):
 
     cfg = work + "/f.cfg"
     ML = 2 if tier == "quick" else 3
-    write_cfg(cfg, spec="Spec", constants={"MaxLen": ML, "Emit": False, "LinkFlagsDropped": False, "CycleCheckStartOnly": False},
-              invariants=["NeverHangs", "TreeClosed", "HardLinksShare"], deadlock=False)
+    write_cfg(cfg, spec="Spec", constants={"MaxLen": ML, "Emit": False, "LinkFlagsDropped": False, "CycleCheckStartOnly": False,
+                                            "GlobLinkPrefixDropped": False},
+              invariants=INVS, deadlock=False)
     r = run_tlc("FsTree", cfg, workers=16, timeout=3000, heap="16g")
     ev.tlc(r, "FsTree programs<=%d" % ML)
     if not r["ok"]:
@@ -209,9 +230,11 @@ def run(tier):
         ev.write()
         return 2
     devres = {}
-    for name, lf, cy, ml in [("LinkFlagsDropped(pre-fix tree)", True, False, 2), ("CycleCheckStartOnly(pre-fix tree)", False, True, 3)]:
-        write_cfg(cfg, spec="Spec", constants={"MaxLen": ml, "Emit": False, "LinkFlagsDropped": lf, "CycleCheckStartOnly": cy},
-                  invariants=["NeverHangs", "TreeClosed", "HardLinksShare"], deadlock=False)
+    for name, lf, cy, gl, ml in [("LinkFlagsDropped(pre-fix tree)", True, False, False, 2), ("CycleCheckStartOnly(pre-fix tree)", False, True, False, 3),
+                                 ("GlobLinkPrefixDropped(pre-fix tree)", False, False, True, 2)]:
+        write_cfg(cfg, spec="Spec", constants={"MaxLen": ml, "Emit": False, "LinkFlagsDropped": lf, "CycleCheckStartOnly": cy,
+                                                "GlobLinkPrefixDropped": gl},
+                  invariants=INVS, deadlock=False)
         r = run_tlc("FsTree", cfg, workers=16, timeout=1800, heap="16g")
         ev.tlc(r, "dev " + name)
         devres[name] = bool(r["violated"])
@@ -223,7 +246,8 @@ def run(tier):
         ev.write()
         return 2
     # ---- R: emitted programs on the real tool --------------------------------------------------------
-    write_cfg(cfg, spec="Spec", constants={"MaxLen": 2, "Emit": True, "LinkFlagsDropped": False, "CycleCheckStartOnly": False},
+    write_cfg(cfg, spec="Spec", constants={"MaxLen": 2, "Emit": True, "LinkFlagsDropped": False, "CycleCheckStartOnly": False,
+                                            "GlobLinkPrefixDropped": False},
               invariants=["EmitOK"], deadlock=False)
     r = run_tlc("FsTree", cfg, workers=4, timeout=1800, heap="8g")
     ev.tlc(r, "FsTree emit")
@@ -232,13 +256,17 @@ def run(tier):
     cyc = [{"prog": [{"kind": "link", "path": ["b"], "uid": 0, "tgt": ["a", "a"]}, {"kind": "link", "path": ["a", "a"], "uid": 0, "tgt": ["b"]},
                      {"kind": "link", "path": ["a", "b"], "uid": 0, "tgt": ["b"]}], "m": {"outcome": "refused"}},
            {"prog": [{"kind": "link", "path": ["b"], "uid": 0, "tgt": ["b"]}, {"kind": "link", "path": ["a"], "uid": 0, "tgt": ["b"]}], "m": {"outcome": "refused"}}]
-    cap = 1500 if tier == "quick" else 5402
+    cap = 2100 if tier == "quick" else 12000
+    ev.set("programs_emitted", len(recs))
     if len(recs) > cap:
-        withlink = [x for x in recs if any(d["kind"] == "link" for d in x["prog"])]
-        rest = [x for x in recs if x not in withlink]
-        rng.shuffle(withlink)
-        rng.shuffle(rest)
-        recs = withlink[:cap // 2] + rest[:cap // 2]
+        strata = {"glob": [], "link": [], "rest": []}
+        for x in recs:
+            kinds = {d["kind"] for d in x["prog"]}
+            strata["glob" if "glob" in kinds else "link" if "link" in kinds else "rest"].append(x)
+        recs = []
+        for k in ("glob", "link", "rest"):
+            rng.shuffle(strata[k])
+            recs += strata[k][:cap // 3]
     recs = cyc + recs
     evaluations = 0
     nontrivial = set()
